@@ -838,8 +838,13 @@ func init() {
 		// the needle has a character no variable part can contain: it can only occur inside constant atoms
 		atoms := catAtoms(strTerm(args[0]))
 		for _, x := range atoms {
-			if x.Op != "cs" && !ex.cannotContain(x, b) {
-				panic(pathAbort{"unsupported: strings.LastIndex on this symbolic shape"})
+			if x.Op == "cs" {
+				continue
+			}
+			for _, c := range b { // no needle character may occur in a variable part (no occurrence straddles one)
+				if !ex.cannotContain(x, string(c)) {
+					panic(pathAbort{"unsupported: strings.LastIndex on this symbolic shape"})
+				}
 			}
 		}
 		for k := len(atoms) - 1; k >= 0; k-- {
@@ -851,6 +856,77 @@ func init() {
 			}
 		}
 		return int64(-1)
+	})
+	// first occurrence of a needle that no variable part can contain or straddle (every needle character is foreign to
+	// the variable atoms): it lies inside one constant atom; returns the atoms before it / after it
+	firstIn := func(ex *Exec, t *Term, b string) (before, after []*Term, found, ok bool) {
+		atoms := catAtoms(t)
+		for _, x := range atoms {
+			if x.Op == "cs" {
+				continue
+			}
+			for _, c := range b {
+				if !ex.cannotContain(x, string(c)) {
+					return nil, nil, false, false
+				}
+			}
+		}
+		for k := 0; k < len(atoms); k++ {
+			if atoms[k].Op == "cs" {
+				if i := strings.Index(atoms[k].S, b); i >= 0 {
+					before = append(append([]*Term{}, atoms[:k]...), mkStr(atoms[k].S[:i]))
+					after = append([]*Term{mkStr(atoms[k].S[i+len(b):])}, atoms[k+1:]...)
+					return before, after, true, true
+				}
+			}
+		}
+		return nil, nil, false, true
+	}
+	reg("strings.Index", func(ex *Exec, fn *ssa.Function, args []Value, site string) Value {
+		a, aok := args[0].(string)
+		b, bok := args[1].(string)
+		if aok && bok {
+			return int64(strings.Index(a, b))
+		}
+		if !bok || b == "" {
+			panic(pathAbort{"unsupported: symbolic needle in strings.Index"})
+		}
+		before, _, found, ok := firstIn(ex, strTerm(args[0]), b)
+		if !ok {
+			panic(pathAbort{"unsupported: strings.Index on this symbolic shape"})
+		}
+		if !found {
+			return int64(-1)
+		}
+		return lower(lenSum(before))
+	})
+	reg("strings.Cut", func(ex *Exec, fn *ssa.Function, args []Value, site string) Value {
+		a, aok := args[0].(string)
+		b, bok := args[1].(string)
+		if aok && bok {
+			x, y, f := strings.Cut(a, b)
+			return Tuple{x, y, f}
+		}
+		if !bok || b == "" {
+			panic(pathAbort{"unsupported: symbolic separator in strings.Cut"})
+		}
+		before, after, found, ok := firstIn(ex, strTerm(args[0]), b)
+		if !ok {
+			// an arbitrary string: decide whether the separator occurs; if it does, cut at its first occurrence
+			s := strTerm(args[0])
+			if !ex.decideBool(mkContains(s, mkStr(b))) {
+				return Tuple{args[0], "", false}
+			}
+			idx := mkStrOp("str.indexof", SInt, s, mkStr(b), mkInt(0))
+			n := mkStrOp("str.len", SInt, s)
+			l := mkStrOp("str.substr", SStr, s, mkInt(0), idx)
+			r := mkStrOp("str.substr", SStr, s, mkArith("+", idx, mkInt(int64(len(b)))), n)
+			return Tuple{lower(l), lower(r), true}
+		}
+		if !found {
+			return Tuple{args[0], "", false}
+		}
+		return Tuple{lower(mkConcat(before...)), lower(mkConcat(after...)), true}
 	})
 	reg("strings.ToLower", func(ex *Exec, fn *ssa.Function, args []Value, site string) Value {
 		if a, ok := args[0].(string); ok {
